@@ -3,7 +3,31 @@ import json
 import vlib, tracechecks as T
 
 
+def docs_vs_rules(ck):
+    """the concrete rows behind C03_docs_agree: when the Coq table theorem breaks, this names the rule"""
+    import translate, ruletable
+
+    docs = translate.parse_docs(vlib.REPO)
+    n = 0
+    for r in ruletable.load():
+        if r["deprecated"]:
+            continue
+        d = docs.get(r["id"])
+        n += 1
+        if not d or not d["labelled"]:
+            if r["phase"]:
+                ck.violation("docs-disagree:undocumented:" + r["id"], "%s runs in phase %s but has no documentation labels" % (r["id"], r["phase"]), {"kind": "input", "rule": r["id"]})
+            continue
+        g = r["groups"][0] if r["groups"] else "none"
+        code = (r["phase"] or 0, g, bool(r["fixable"] and r["overrides_fix"]), bool(r["disable"]), r["sev_type"] == "error")
+        doc = (d["phase"], d["group"], not d["unfixable"], d["disabled"], d["error"])
+        if code != doc:
+            ck.violation("docs-disagree:" + r["id"], "%s is documented as (phase, group, fixable, disabled, error) = %r but the rule object says %r" % (r["id"], doc, code), {"kind": "input", "rule": r["id"], "documented": doc, "rule_object": code})
+    return n
+
+
 def evaluate(ck, data, rules, docg):
+    ck.cov["rules_compared_with_docs"] = docs_vs_rules(ck)
     cnt = {"layout": 0, "case": 0, "structure": 0}
     for o in T.runs(data):
         for r in o["records"]:
